@@ -29,14 +29,21 @@ Record case := {
   staked : list bytes;      (* addresses for which the scripted registry answers yes *)
   (* observation *)
   o_res : N;                (* 0 enrolled; 1..7 refusal class; 8 refused, class not visible; 9 panic;
-                               10 the exchange did not complete within the bound *)
+                               10 the exchange did not complete within the bound;
+                               11 a stalled call returned before its context ended; 12 still pending (stalled inbound) *)
   o_addr : bytes; o_role : Z;
   o_written : list wframe; o_lookups : list bytes; o_verifies : list (bytes * bytes);
   o_wrap : option wrapobs;
   (* end-to-end sessions: the registry entry of the remote's peer id just before this handshake, read by
      the driver through Connect's short cut (an earlier handshake of the session, on another transport
      connection that is still open, created it); None otherwise *)
-  prior : option (bytes * Z)
+  prior : option (bytes * Z);
+  (* a stalling remote: after the script nothing arrives and the stream stays open; the read is ended by
+     the context only (scripted and outbound: the driver's own deadline; inbound end-to-end: never within
+     the driver's bound, the case is observed while still pending).  o_blocked: a read was blocked until
+     the context ended / until the driver's bound *)
+  stall : bool;
+  o_blocked : bool
 }.
 
 (* ---- equality tests ---------------------------------------------------------------------------- *)
@@ -76,6 +83,13 @@ Definition oracles_of (c : case) : oracles :=
      registered := fun a => mem a (staked c) |}.
 Definition wfail_of (c : case) (k : nat) : bool := existsb (Nat.eqb k) (wfails c).
 
+Definition model_waits (c : case) : bool :=
+  if (dir c =? 0)%N then handle_waits (cfg c) (oracles_of c) (wfail_of c) (script c)
+  else handshake_waits (cfg c) (oracles_of c) (wfail_of c) (script c).
+(* inbound end-to-end with a staller: Handle runs on the Service's base context, it is still waiting when
+   the driver looks *)
+Definition pending (c : case) : bool := stall c && (mode c =? 1)%N && model_waits c.
+
 Definition model_run (c : case) : run :=
   if (dir c =? 0)%N then handle (cfg c) (oracles_of c) (wfail_of c) (script c)
   else handshake (cfg c) (oracles_of c) (wfail_of c) (script c).
@@ -93,6 +107,7 @@ Definition refusal_code (r : refusal) : N :=
   match r with RSig => 1 | RAddr => 2 | RStake => 3 | RRead => 4 | RWrite => 5 | RPid => 6 | REcho => 7 end%N.
 
 Definition res_agrees (c : case) (r : result) : bool :=
+  if pending c then (o_res c =? 12)%N else
   match r with
   | Enrol a t => (o_res c =? 0)%N && bytes_eqb a (o_addr c) && (t =? o_role c)
   | Refuse k =>
@@ -137,6 +152,12 @@ Definition wrap_agrees (c : case) : bool :=
   match o_wrap c with
   | None => (mode c =? 0)%N
   | Some w =>
+      if pending c then
+        (* nothing has happened yet: not registered, not announced, not blocked, connection still open *)
+        negb (w_registered w) && list_eqb note_eqb (w_notified w) [] && (w_block w =? -1) &&
+        negb (w_closed w) && list_eqb note_eqb (w_gone w) [] &&
+        match w_record w with None => true | Some _ => false end
+      else
       let e := model_effects c in
       Bool.eqb (w_registered w) (match entry_of c with Some _ => true | None => false end) &&
       list_eqb note_eqb (w_gone w) (eff_gone e) &&
@@ -159,7 +180,8 @@ Definition agrees (c : case) : bool :=
   list_eqb wframe_eqb (written r) (o_written c) &&
   list_eqb bytes_eqb (lookups r) (o_lookups c) &&
   ((negb (mode c =? 0)%N) || list_eqb pair_eqb (verifies r) (o_verifies c)) &&
-  wrap_agrees c.
+  wrap_agrees c &&
+  Bool.eqb (o_blocked c) (stall c && model_waits c).
 
 Definition mismatches (cs : list case) : list N :=
   map id (filter (fun c => negb (agrees c)) cs).
@@ -210,6 +232,10 @@ Definition violation (c : case) : list string :=
         (if (o_res c =? 0)%N then
            flat_map (fun n => match enrol_violation c (fst n) (snd n) with Some k => [k] | None => [] end)
                     (w_notified w)
+         else if (o_res c =? 12)%N then
+           (* still pending at the driver's bound: nothing may have been registered or announced *)
+           (if w_registered w || negb (list_eqb note_eqb (w_notified w) [])
+            then ["effect-on-refusal"%string] else [])
          else
            (* "ends with the connection refused and no peer registered or announced" *)
            (if w_registered w
